@@ -856,6 +856,9 @@ func (s *queueSupplier) OpenDB(groupSchema *commonv1.Group) (resourceSchema.DB, 
 	shardNum := ro.ShardNum
 	group := groupSchema.Metadata.Name
 	metrics, metricsFactory := s.newMetrics(p)
+	// The replica count is refreshed by wqueue.UpdateOptions on a group update.
+	replicas := new(atomic.Uint32)
+	replicas.Store(ro.Replicas)
 	opts := wqueue.Opts[*tsTable, option]{
 		Group:           group,
 		ShardNum:        shardNum,
@@ -865,8 +868,9 @@ func (s *queueSupplier) OpenDB(groupSchema *commonv1.Group) (resourceSchema.DB, 
 		Metrics:         metrics,
 		MetricsFactory:  metricsFactory,
 		SubQueueCreator: newWriteQueue,
+		Replicas:        replicas,
 		GetNodes: func(shardID common.ShardID) []string {
-			copies := ro.Replicas + 1
+			copies := replicas.Load() + 1
 			nodes, err := s.measureDataNodeRegistry.LocateAll(group, uint32(shardID), int(copies))
 			if err != nil {
 				s.l.Error().Err(err).Str("group", group).Uint32("shard", uint32(shardID)).Msg("failed to locate nodes")
